@@ -22,12 +22,14 @@ import (
 	"github.com/hyperledger/aries-framework-go/component/storageutil/mem"
 	"github.com/hyperledger/aries-framework-go/pkg/didcomm/common/service"
 	"github.com/hyperledger/aries-framework-go/pkg/didcomm/dispatcher"
+	"github.com/hyperledger/aries-framework-go/pkg/didcomm/protocol/decorator"
 	"github.com/hyperledger/aries-framework-go/pkg/didcomm/protocol/didexchange"
 	"github.com/hyperledger/aries-framework-go/pkg/didcomm/protocol/introduce"
 	"github.com/hyperledger/aries-framework-go/pkg/didcomm/protocol/issuecredential"
 	"github.com/hyperledger/aries-framework-go/pkg/didcomm/protocol/legacyconnection"
 	"github.com/hyperledger/aries-framework-go/pkg/didcomm/protocol/mediator"
 	"github.com/hyperledger/aries-framework-go/pkg/didcomm/protocol/messagepickup"
+	mdpresentproof "github.com/hyperledger/aries-framework-go/pkg/didcomm/protocol/middleware/presentproof"
 	"github.com/hyperledger/aries-framework-go/pkg/didcomm/protocol/outofbandv2"
 	"github.com/hyperledger/aries-framework-go/pkg/didcomm/protocol/presentproof"
 	"github.com/hyperledger/aries-framework-go/pkg/didcomm/transport"
@@ -63,6 +65,10 @@ type ProtoCase struct {
 }
 
 // ---------- templates: what the framework's encoders emit for each message type (thread T) ----------
+
+const holderVC = `{"@context":["https://www.w3.org/2018/credentials/v1"],"id":"http://example.edu/credentials/1872",
+"type":["VerifiableCredential"],"issuer":"did:example:76e12ec712ebc6f1c221ebfeb1f","issuanceDate":"2010-01-01T19:23:24Z",
+"credentialSubject":{"id":"did:example:ebfeb1f712ebc6f1c276e12ec21"}}`
 
 const (
 	myDID    = "did:peer:1zQmbVerifTargetAgent0000000000000000000000000000"
@@ -155,9 +161,9 @@ func templates() map[string][]string {
 		},
 		"mediator": {
 			`{"@type":"https://didcomm.org/coordinatemediation/1.0/mediate-request","@id":"T§","~timing":{}}`,
-			`{"@type":"https://didcomm.org/coordinatemediation/1.0/keylist-update","@id":"k1","updates":[{"recipient_key":"did:key:z6MkpTHR8VNsBxYAAWHut2Geadd9jSwuBV8xRoAnwWsdvktH","action":"add"}]}`,
+			`{"@type":"https://didcomm.org/coordinatemediation/1.0/keylist_update","@id":"k1","updates":[{"recipient_key":"did:key:z6MkpTHR8VNsBxYAAWHut2Geadd9jSwuBV8xRoAnwWsdvktH","action":"add"}]}`,
 			`{"@type":"https://didcomm.org/coordinatemediation/1.0/mediate-grant","@id":"@REQID@","endpoint":"http://127.0.0.1:1/","routing_keys":["did:key:z6MkpTHR8VNsBxYAAWHut2Geadd9jSwuBV8xRoAnwWsdvktH"],` + thread + `}`,
-			`{"@type":"https://didcomm.org/coordinatemediation/1.0/keylist-update-response","@id":"@REQID@","updated":[{"recipient_key":"did:key:z6MkpTHR8VNsBxYAAWHut2Geadd9jSwuBV8xRoAnwWsdvktH","action":"add","result":"success"}],` + thread + `}`,
+			`{"@type":"https://didcomm.org/coordinatemediation/1.0/keylist_update_response","@id":"@REQID@","updated":[{"recipient_key":"did:key:z6MkpTHR8VNsBxYAAWHut2Geadd9jSwuBV8xRoAnwWsdvktH","action":"add","result":"success"}],` + thread + `}`,
 			`{"@type":"https://didcomm.org/routing/1.0/forward","@id":"f1","to":"did:key:z6MkpTHR8VNsBxYAAWHut2Geadd9jSwuBV8xRoAnwWsdvktH","msg":{"protected":"e30","iv":"AAAA","ciphertext":"AAAA","tag":"AAAA"}}`,
 			`{"type":"https://didcomm.org/routing/2.0/forward","id":"f2","body":{"next":"did:key:z6MkpTHR8VNsBxYAAWHut2Geadd9jSwuBV8xRoAnwWsdvktH"},"to":["did:example:m"],"attachments":[{"id":"a","data":{"json":{"protected":"e30"}}}]}`,
 		},
@@ -204,7 +210,7 @@ type workReq struct {
 	Inv  string          `json:"inv"` // id of the item's invitation / parent thread
 	Alt  string          `json:"alt"` // thread id to use when the agent has no connection record for Inv
 	Via  string          `json:"via"`
-	Late int             `json:"late_ms"` // api call: the first answer arrives this long after the request
+	Late int             `json:"late_ms"`       // api call: the first answer arrives this long after the request
 	Raw  []byte          `json:"raw,omitempty"` // a transport frame (any bytes)
 }
 
@@ -258,6 +264,11 @@ func newTarget() *target {
 
 	for _, s := range ctx.AllServices() {
 		t.svcs = append(t.svcs, s)
+
+		// the holder application uses the presentation-exchange middleware of the framework
+		if pp, ok := s.(*presentproof.Service); ok {
+			pp.Use(mdpresentproof.PresentationDefinition(ctx))
+		}
 
 		if ev, ok := s.(service.Event); ok {
 			ch := make(chan service.DIDCommAction, 64)
@@ -374,7 +385,14 @@ func autoContinue(name string, ch chan service.DIDCommAction) {
 			case presentproof.ProposePresentationMsgTypeV2, presentproof.ProposePresentationMsgTypeV3:
 				a.Continue(presentproof.WithRequestPresentation(&presentproof.RequestPresentationParams{}))
 			case presentproof.RequestPresentationMsgTypeV2, presentproof.RequestPresentationMsgTypeV3:
-				a.Continue(presentproof.WithPresentation(&presentproof.PresentationParams{}))
+				// the holder answers with a credential and lets the middleware build the submission
+				var vcm map[string]interface{}
+
+				_ = json.Unmarshal([]byte(holderVC), &vcm)
+
+				a.Continue(presentproof.WithPresentation(&presentproof.PresentationParams{
+					Attachments: []decorator.GenericAttachment{{ID: "hc1", MediaType: "application/ld+json",
+						Data: decorator.AttachmentData{JSON: vcm}}}}))
 			default:
 				a.Continue(nil)
 			}
@@ -451,7 +469,11 @@ func (t *target) apiCall(name string) {
 
 	switch name {
 	case "mediator-addkey":
-		go func() { _ = med.AddKey("conn1", key) }()
+		go func() {
+			if e := med.AddKey("conn1", key); e != nil && os.Getenv("C03_DEBUG") != "" {
+				fmt.Fprintf(os.Stderr, "c03-debug: AddKey: %v\n", e)
+			}
+		}()
 	case "mediator-register":
 		// a fresh connection with the same peer that is not yet registered as a router
 		t.nconn++
@@ -462,7 +484,9 @@ func (t *target) apiCall(name string) {
 			return
 		}
 
-		go func() { _ = med.Register(id, mediator.ClientOption(func(o *mediator.ClientOptions) { o.Timeout = 2 * time.Second })) }()
+		go func() {
+			_ = med.Register(id, mediator.ClientOption(func(o *mediator.ClientOptions) { o.Timeout = 2 * time.Second }))
+		}()
 	case "pickup-batch":
 		go func() { _, _ = mp.BatchPickup("conn1", 1) }()
 	case "pickup-status":
@@ -477,6 +501,10 @@ func (t *target) apiCall(name string) {
 	case packed := <-sentCh:
 		env, err := t.ctx.Packager().UnpackMessage(packed)
 		if err != nil {
+			if os.Getenv("C03_DEBUG") != "" {
+				fmt.Fprintf(os.Stderr, "c03-debug: apiCall %s: unpack of the request: %v\n", name, err)
+			}
+
 			return
 		}
 
@@ -487,7 +515,14 @@ func (t *target) apiCall(name string) {
 		if json.Unmarshal(env.Message, &req) == nil && req.ID != "" {
 			t.lastReq = req.ID
 		}
+
+		if os.Getenv("C03_DEBUG") != "" {
+			fmt.Fprintf(os.Stderr, "c03-debug: apiCall %s: request %s\n", name, env.Message)
+		}
 	case <-time.After(2 * time.Second): //nolint:gomnd
+		if os.Getenv("C03_DEBUG") != "" {
+			fmt.Fprintf(os.Stderr, "c03-debug: apiCall %s: no request seen\n", name)
+		}
 	}
 }
 
@@ -536,6 +571,28 @@ func (t *target) deliver(raw []byte, conn bool) {
 func workerMain(_ string) {
 	t := newTarget()
 
+	if os.Getenv("C03_DEBUG") != "" {
+		// every template must be a message some service accepts
+		for proto, list := range templates() {
+			for i, tpl := range list {
+				m, err := service.ParseDIDCommMsgMap([]byte(tpl))
+				accepted := false
+
+				if err == nil {
+					for _, s := range t.svcs {
+						if s.Accept(m.Type()) {
+							accepted = true
+						}
+					}
+				}
+
+				if !accepted {
+					fmt.Fprintf(os.Stderr, "c03-debug: template %s/%d (%s) is accepted by no service\n", proto, i, m.Type())
+				}
+			}
+		}
+	}
+
 	rd := bufio.NewReaderSize(os.Stdin, 1<<20)
 	out := bufio.NewWriter(os.Stdout)
 
@@ -551,25 +608,22 @@ func workerMain(_ string) {
 						raw = bytes.ReplaceAll(raw, []byte("@THID@"), []byte(t.threadOf(req.Inv, req.Alt)))
 					}
 
-					raw = t.pool.substitute(raw)
+					raw = t.pool.substitute(raw, fmt.Sprintf("i%d", req.ID))
 
-					switch {
-					case req.Via == "oobv2-accept":
-						t.acceptOOBv2(raw)
-					case strings.HasPrefix(req.Via, "api:"):
-						t.apiCall(strings.TrimPrefix(req.Via, "api:"))
+					// the entry point is called in a goroutine of its own: one that does not come back within the hang
+					// threshold is reported and left behind
+					fin := make(chan struct{})
 
-						if req.Late > 0 {
-							time.Sleep(time.Duration(req.Late) * time.Millisecond)
-						}
+					go func() {
+						defer close(fin)
 
-						t.deliver(bytes.ReplaceAll(raw, []byte("@REQID@"), []byte(t.lastReq)), true)
-					case req.Via == "reply":
-						t.deliver(bytes.ReplaceAll(raw, []byte("@REQID@"), []byte(t.lastReq)), true)
-					case req.Via == "ws-frame":
-						t.wsFrame(req.Raw)
-					default:
-						t.deliver(raw, req.Conn)
+						t.dispatch(req, raw)
+					}()
+
+					select {
+					case <-fin:
+					case <-time.After(hangLimit):
+						fmt.Fprintf(out, "hung %d\n", req.ID)
 					}
 
 					if req.Wait > 0 {
@@ -599,7 +653,8 @@ func workerMain(_ string) {
 						held, _ = t.pool.pending()
 					}
 
-					fmt.Fprintf(out, "flushed held=%d flood=%d contacts=%d\n", held, t.pool.flooded(), t.pool.contacts())
+					fmt.Fprintf(out, "flushed held=%d flood=%d contacts=%d heldtags=%s floodtags=%s\n", held, t.pool.flooded(),
+						t.pool.contacts(), strings.Join(t.pool.heldTags(), ","), strings.Join(t.pool.floodTags(1<<25), ","))
 				}
 
 				out.Flush()
@@ -612,10 +667,32 @@ func workerMain(_ string) {
 	}
 }
 
+// dispatch hands one message to the entry point its case names.
+func (t *target) dispatch(req workReq, raw []byte) {
+	switch {
+	case req.Via == "oobv2-accept":
+		t.acceptOOBv2(raw)
+	case strings.HasPrefix(req.Via, "api:"):
+		t.apiCall(strings.TrimPrefix(req.Via, "api:"))
+
+		if req.Late > 0 {
+			time.Sleep(time.Duration(req.Late) * time.Millisecond)
+		}
+
+		t.deliver(bytes.ReplaceAll(raw, []byte("@REQID@"), []byte(t.lastReq)), true)
+	case req.Via == "reply":
+		t.deliver(bytes.ReplaceAll(raw, []byte("@REQID@"), []byte(t.lastReq)), true)
+	case req.Via == "ws-frame":
+		t.wsFrame(req.Raw)
+	default:
+		t.deliver(raw, req.Conn)
+	}
+}
+
 // ---------- parent side ----------
 
 type protoItem struct {
-	pc   ProtoCase
+	pc    ProtoCase
 	seq   [][]byte // messages to deliver: prefix + the mutated message (+ once more)
 	uniq  string   // suffix of the item's thread ids
 	waits []int    // pause (ms) before the k-th message
@@ -630,6 +707,8 @@ type batchResult struct {
 	lastOK  int
 	held    int   // requests to hostile endpoints the agent still had open when the hang threshold passed
 	flood   int64 // bytes the agent took from the endless stream
+	// bad: the items (index in the batch) whose message named the endpoint of a held request / an over-read stream
+	bad map[int]bool
 }
 
 func runBatch(items []protoItem, quiesce int) batchResult {
@@ -652,6 +731,7 @@ func runBatch(items []protoItem, quiesce int) batchResult {
 	go func() {
 		res := batchResult{lastOK: -1}
 		rd := bufio.NewReader(stdout)
+		hung := map[int]bool{}
 
 		for {
 			line, e := rd.ReadString('\n')
@@ -659,12 +739,47 @@ func runBatch(items []protoItem, quiesce int) batchResult {
 				fmt.Sscanf(line, "ok %d", &res.lastOK) //nolint:errcheck
 			}
 
+			if strings.HasPrefix(line, "hung ") {
+				var n int
+				if _, e2 := fmt.Sscanf(line, "hung %d", &n); e2 == nil {
+					hung[n] = true
+				}
+			}
+
 			if strings.HasPrefix(line, "flushed") {
 				var contacts int64
 
-				fmt.Sscanf(line, "flushed held=%d flood=%d contacts=%d", &res.held, &res.flood, &contacts) //nolint:errcheck
+				var ht, ft string
 
-				if res.held > 0 || res.flood > 1<<25 {
+				for _, f := range strings.Fields(line) {
+					switch {
+					case strings.HasPrefix(f, "held="):
+						fmt.Sscanf(f, "held=%d", &res.held) //nolint:errcheck
+					case strings.HasPrefix(f, "flood="):
+						fmt.Sscanf(f, "flood=%d", &res.flood) //nolint:errcheck
+					case strings.HasPrefix(f, "contacts="):
+						fmt.Sscanf(f, "contacts=%d", &contacts) //nolint:errcheck
+					case strings.HasPrefix(f, "heldtags="):
+						ht = strings.TrimPrefix(f, "heldtags=")
+					case strings.HasPrefix(f, "floodtags="):
+						ft = strings.TrimPrefix(f, "floodtags=")
+					}
+				}
+
+				res.bad = map[int]bool{}
+
+				for _, tg := range strings.Split(ht+","+ft, ",") {
+					var n int
+					if _, e := fmt.Sscanf(tg, "i%d", &n); e == nil {
+						res.bad[n] = true
+					}
+				}
+
+				for n := range hung {
+					res.bad[n] = true
+				}
+
+				if res.held > 0 || len(res.bad) > 0 {
 					res.timeout = true
 				}
 
@@ -722,8 +837,8 @@ func runBatch(items []protoItem, quiesce int) batchResult {
 				}
 
 				b, _ := json.Marshal(wr) //nolint:errcheck
-				w.Write(b)                                                                           //nolint:errcheck
-				w.WriteByte('\n')                                                                    //nolint:errcheck
+				w.Write(b)               //nolint:errcheck
+				w.WriteByte('\n')        //nolint:errcheck
 			}
 		}
 
@@ -733,7 +848,7 @@ func runBatch(items []protoItem, quiesce int) batchResult {
 		w.Flush()                                                 //nolint:errcheck
 	}()
 
-	limit := 2*hangLimit + time.Duration(len(items))*200*time.Millisecond
+	limit := 4*hangLimit + time.Duration(len(items))*200*time.Millisecond
 
 	var res batchResult
 
@@ -743,9 +858,9 @@ func runBatch(items []protoItem, quiesce int) batchResult {
 		res = batchResult{timeout: true, lastOK: -1}
 	}
 
-	stdin.Close()          //nolint:errcheck
-	cmd.Process.Kill()     //nolint:errcheck
-	cmd.Wait()             //nolint:errcheck
+	stdin.Close()               //nolint:errcheck
+	cmd.Process.Kill()          //nolint:errcheck
+	cmd.Wait()                  //nolint:errcheck
 	io.Copy(io.Discard, stdout) //nolint:errcheck
 
 	res.stderr = stderr.String()
@@ -823,7 +938,8 @@ func (r *runner) protoItems() []protoItem {
 					{Proto: proto, Index: idx, Path: m.Path, Mut: m.Name, Conn: true, Second: true}}
 
 				variants := all
-				always := strings.HasPrefix(m.Name, "attach-links-") || strings.HasPrefix(m.Name, "url-")
+				always := strings.HasPrefix(m.Name, "attach-links-") || strings.HasPrefix(m.Name, "url-") ||
+					strings.HasPrefix(m.Name, "attach-b64-")
 
 				if r.tier != "thorough" && m.Name != "seed" {
 					// quick tier: every mutation in one of the three settings (rotating), every third one skipped
@@ -1020,8 +1136,7 @@ func (r *runner) emitProto(kind string, it protoItem, res batchResult, alone boo
 		msg, site := workerPanicSite(res.stderr)
 		o = Outcome{Class: "panic", Err: msg, Site: site}
 
-		if !seenSite[site] || os.Getenv("VERIF_STACK") != "" {
-			seenSite[site] = true
+		if firstSight(site) || os.Getenv("VERIF_STACK") != "" {
 			st := res.stderr
 			if i := strings.Index(st, msg); i >= 0 {
 				st = st[i:]
@@ -1044,7 +1159,6 @@ func (r *runner) emitProto(kind string, it protoItem, res batchResult, alone boo
 	}
 
 	if o.Class != "ok" {
-		r.fails++
 		rec.Oracle = "fail"
 		rec.Sig = o.Class + "@" + o.Site
 		rec.Detail = fmt.Sprintf("%s in a handler goroutine of the agent: protocol %s, template %d, %s %s (conn=%v, delivered twice=%v, after prefix [%s], via %q answered %q): %s",
@@ -1064,8 +1178,7 @@ func (r *runner) emitProto(kind string, it protoItem, res batchResult, alone boo
 		rec.Coq = r.coqPickup(it, o)
 	}
 
-	r.n++
-	r.tr.Put(rec)
+	r.put(rec)
 }
 
 // coqPickup gives the model the shape of a status-request / batch-pickup (an inbox with two messages exists for the
@@ -1114,14 +1227,34 @@ func (r *runner) runProtocols() {
 
 	var chunks [][]protoItem
 
-	var fast []protoItem
+	var fast, urls []protoItem
 
 	for _, it := range items {
-		if it.lateFirst {
+		names := false
+
+		for _, m := range it.seq {
+			if bytes.Contains(m, []byte("@HOSTILE:")) {
+				names = true
+			}
+		}
+
+		switch {
+		case it.lateFirst:
 			chunks = append(chunks, []protoItem{it}) // waits for a timeout of the service: a worker of its own
-		} else {
+		case names:
+			urls = append(urls, it) // together: only their workers may have to wait for the hang threshold
+		default:
 			fast = append(fast, it)
 		}
+	}
+
+	for i := 0; i < len(urls); i += batch {
+		j := i + batch
+		if j > len(urls) {
+			j = len(urls)
+		}
+
+		chunks = append(chunks, urls[i:j])
 	}
 
 	for i := 0; i < len(fast); i += batch {
@@ -1152,9 +1285,52 @@ func (r *runner) runProtocols() {
 	}
 
 	for i, ch := range chunks {
-		if !results[i].crashed && !results[i].timeout {
+		res := results[i]
+
+		if !res.crashed && !res.timeout {
 			for _, it := range ch {
-				r.emitProto("proto", it, results[i], false)
+				r.emitProto("proto", it, res, false)
+			}
+
+			continue
+		}
+
+		if !res.crashed && len(res.bad) > 0 {
+			// requests to sender-controlled endpoints are attributed by the endpoint's path: confirm those items once
+			// more together, the rest of the batch was fine
+			var (
+				suspects []protoItem
+				idx      []int
+			)
+
+			for k, it := range ch {
+				if res.bad[k] {
+					suspects = append(suspects, it)
+					idx = append(idx, k)
+				}
+			}
+
+			if len(suspects) > 40 { //nolint:gomnd
+				suspects, idx = suspects[:40], idx[:40]
+			}
+
+			confirm := runBatch(suspects, 300) //nolint:gomnd
+			confirmed := map[int]bool{}
+
+			for j := range suspects {
+				if confirm.bad[j] {
+					confirmed[idx[j]] = true
+				}
+			}
+
+			ok := batchResult{lastOK: res.lastOK}
+
+			for k, it := range ch {
+				if confirmed[k] {
+					r.emitProto("proto", it, batchResult{timeout: true, held: confirm.held, flood: confirm.flood}, true)
+				} else {
+					r.emitProto("proto", it, ok, false)
+				}
 			}
 
 			continue
@@ -1427,4 +1603,50 @@ func wsFrames() [][]byte {
 	}
 
 	return frames
+}
+
+// replayProtoBatch runs the protocol witnesses of the corpus together in one worker; when that worker does not survive
+// (or waits on a hostile endpoint) each is run alone.
+func (r *runner) replayProtoBatch(cases []Case, kind string) {
+	var items []protoItem
+
+	for _, c := range cases {
+		if it, ok := buildItem(*c.Proto); ok {
+			it.uniq = fmt.Sprintf("-c%d", len(items))
+
+			for k := range it.seq {
+				it.seq[k] = bytes.ReplaceAll(it.seq[k], []byte("-r"), []byte(it.uniq))
+			}
+
+			items = append(items, it)
+		}
+	}
+
+	if len(items) == 0 {
+		return
+	}
+
+	var fast []protoItem
+
+	for _, it := range items {
+		if it.lateFirst {
+			r.replayProto(Case{Proto: &it.pc}, kind)
+		} else {
+			fast = append(fast, it)
+		}
+	}
+
+	res := runBatch(fast, 500) //nolint:gomnd
+	if !res.crashed && !res.timeout {
+		for _, it := range fast {
+			r.emitProto(kind+":proto", it, res, false)
+		}
+
+		return
+	}
+
+	for _, it := range fast {
+		pc := it.pc
+		r.replayProto(Case{Proto: &pc}, kind)
+	}
 }
